@@ -1828,7 +1828,8 @@ BTree_rangeSearch(BTree *self, PyObject *args, PyObject *kw, char type)
     /* The buckets differ, or they're the same and the offsets show a non-
     * empty range.
     */
-    if (min != Py_None && max != Py_None && /* both args user-supplied */
+    if ((min != Py_None || excludemin) && /* low end is not the first key */
+        (max != Py_None || excludemax) && /* high end is not the last key */
         lowbucket != highbucket)   /* and different buckets */
     {
         KEY_TYPE first;
